@@ -275,7 +275,10 @@ class PerformanceTable:
         The interpolation is done in the subset of the performance table
         corresponding to the given rate of climb/descent filter."""
 
-        fl = state.altitude * METERS_TO_FL
+        # The unit conversion leaves a rounding residue of a few ulp (FL230 in
+        # meters comes back as 230.00000000000003): without this, a tabulated
+        # level given in meters can fall just outside its own table.
+        fl = round(state.altitude * METERS_TO_FL, 9)
         mass = state.aircraft_mass
         if mass == 'min':
             mass = min(self.mass)
